@@ -4,6 +4,7 @@ coverage, loop / recursion certificates."""
 from ..cfg import CFG, callee_names
 from ..engine import TYPESTATE, AnchorMissing
 from ..vra.interp import Unsupported
+from ..vra.values import VInt
 from ..facts import named_place
 
 FMT_TRAITS = ("std::fmt::Debug", "std::fmt::Display")
@@ -77,6 +78,24 @@ def place_field(body, pl, depth=0):
     return None, None
 
 
+SMALL_WRITES = {}   # id(assign stmt) -> every value the analysis saw written there lies in [0, 2^32]
+
+
+def install_write_monitor(ip):
+    """records, for every assignment the analysis executes, whether the written integer is bounded by 2^32 in every context
+    (rule U accepts such a write to a counter like a constant: `self.n = START_SEQ.len()`)"""
+    if getattr(ip, "_small_write_monitor", False):
+        return
+    ip._small_write_monitor = True
+
+    def on_assign(ip_, frame, bb, stmt, st, val):
+        if isinstance(val, VInt) and not val.sg and val.w == 64:
+            lo, hi = st.interval(val.lin)
+            ok = lo is not None and hi is not None and 0 <= lo and hi <= (1 << 32)
+            SMALL_WRITES[id(stmt)] = SMALL_WRITES.get(id(stmt), True) and ok
+    ip.on_assign.append(on_assign)
+
+
 def rule_u(facts, body, bb, r_lo, r_hi):
     """monotone usize counter (accepted under A3): the overflowing `p + e` has a usize field p and an
     addend proved to lie in [0, 256], and every write to that field in the crate is a constant, a
@@ -119,8 +138,10 @@ def rule_u(facts, body, bb, r_lo, r_hi):
                     # a copy of the same counter field of another instance of the type (e.g. `self.f = fresh.f`)
                     if place_field(b, src) == (fname, fty):
                         continue
+                if SMALL_WRITES.get(id(st)) is True:
+                    continue
                 return None
-    return "rule U: usize counter `%s` is only ever assigned constants or incremented by a value in [0,256] (A3)" % fname
+    return "rule U: usize counter `%s` is only ever assigned constants (or values the analysis bounds by 2^32) or incremented by a value in [0,256] (A3)" % fname
 
 
 def _is_checked_inc(b, local, fname):
@@ -146,6 +167,7 @@ def _is_default_call_result(b, local):
 
 def run_roots(ctx, A, bodies, rid, modular=()):
     A.ip.source_calls = True
+    install_write_monitor(A.ip)
     """analyse every root in `bodies`; returns log start index.
     modular: def-path prefixes of roots that, once analysed from arbitrary invariant states, are treated as opaque total
     functions when later roots call them (their obligations are already in the log)."""
